@@ -109,26 +109,35 @@ def strandGraphFrom (k0 : Nat) (names : List String) (labels : List Attrs) (circ
              ++ (List.range (n - 2)).map (fun i => ⟨k0 + (i + 1), k0 + (i + 2), labels.getD (i + 1) []⟩),
     maxResid := n }
 
+/-- The strand when the residue graph numbers its nodes from `k0` AND its residues from `r0` (a `.json`
+residue graph carries its own `resid`s; the strand that `complement_dsDNA` added has resids `n+1..2n`):
+keys `k0..k0+n-1`, resids `r0..r0+n-1`, `max_resid = r0+n-1` (`MetaMolecule.__init__`: the largest resid;
+meaningful for `n ≥ 1`).  Same edges as `strandGraphFrom k0`. -/
+def strandGraphAt (k0 r0 : Nat) (names : List String) (labels : List Attrs) (circ : Option Attrs) : RGraph :=
+  { nodes := names.zipIdx.map (fun (nm, i) => ⟨k0 + i, r0 + i, nm⟩),
+    edges := (strandGraphFrom k0 names labels circ).edges,
+    maxResid := r0 + names.length - 1 }
+
 /-- How `gen_params` gets the strand (`gen_itp.py`): `-seq` (`split_seq_string` +
 `MetaMolecule.from_monomer_seq_linear`: keys `0..n-1`, linear, no edge attributes) or `-seqf`
-(`MetaMolecule.from_sequence_file`: keys from `k0`, labels, possibly circular). -/
+(`MetaMolecule.from_sequence_file`: keys from `k0`, resids from `r0`, labels, possibly circular). -/
 inductive SeqInput where
   | seq (names : List String)
-  | seqFile (k0 : Nat) (names : List String) (labels : List Attrs) (circ : Option Attrs)
+  | seqFile (k0 r0 : Nat) (names : List String) (labels : List Attrs) (circ : Option Attrs)
 deriving Repr
 
 def SeqInput.names : SeqInput → List String
   | .seq names => names
-  | .seqFile _ names _ _ => names
+  | .seqFile _ _ names _ _ => names
 
 def SeqInput.circ : SeqInput → Option Attrs
   | .seq _ => none
-  | .seqFile _ _ _ circ => circ
+  | .seqFile _ _ _ _ circ => circ
 
 /-- the `MetaMolecule` built by the `if seq: … elif seq_file: …` of `gen_params` -/
 def SeqInput.graph : SeqInput → RGraph
   | .seq names => strandGraphFrom 0 names [] none
-  | .seqFile k0 names labels circ => strandGraphFrom k0 names labels circ
+  | .seqFile k0 r0 names labels circ => strandGraphAt k0 r0 names labels circ
 
 /-- `gen_params(..., seq=… | seq_file=…, dsdna=…)` up to the point where the residue graph is handed to
 `MapToMolecule`: build the strand from EITHER source, then `if dsdna: complement_dsDNA(meta_molecule)`. -/
@@ -185,5 +194,22 @@ def specGraphFrom (k0 : Nat) (tbl : List (String × String)) (names : List Strin
                         (fun k => ⟨k0 + (n + k), k0 + (n + k + 1), normAttrs (labels.getD (n - 2 - k) [])⟩)
                     ++ (match circ with | some a => [⟨k0 + (2 * n - 1), k0 + n, normAttrs a⟩] | none => []),
            maxResid := 2 * n }
+
+/-- The specification for a strand with node keys from `k0` and resids from `r0`: the strand unchanged,
+then residue `n+k` (key `k0+n+k`, resid `r0+n+k` — numbering continues after `max_resid`) named
+`comp names[n-1-k]`, the edges of `specGraphFrom k0`. -/
+def specGraphAt (k0 r0 : Nat) (tbl : List (String × String)) (names : List String) (labels : List Attrs)
+    (circ : Option Attrs) : Option RGraph :=
+  let n := names.length
+  match names.reverse.mapM (lookup tbl) with
+  | none => none
+  | some comps =>
+    let base := strandGraphAt k0 r0 names labels circ
+    some { nodes := base.nodes ++ comps.zipIdx.map (fun (nm, k) => ⟨k0 + (n + k), r0 + (n + k), nm⟩),
+           edges := base.edges
+                    ++ (List.range (n - 1)).map
+                        (fun k => ⟨k0 + (n + k), k0 + (n + k + 1), normAttrs (labels.getD (n - 2 - k) [])⟩)
+                    ++ (match circ with | some a => [⟨k0 + (2 * n - 1), k0 + n, normAttrs a⟩] | none => []),
+           maxResid := r0 + 2 * n - 1 }
 
 end PolyplyVerif.Dna
